@@ -7,6 +7,8 @@ import math
 import numpy as np
 from hypothesis import strategies as st
 
+from . import c03
+
 from .. import build, gen, isolate, refsem
 from .. import models_common as mc
 from ..runner import Outcome, SubCheck
@@ -121,6 +123,7 @@ def strat_faults(draw, tier):
     case['parents'] = list(parents)
     case['entry'] = draw(st.sampled_from(ENTRY_POINTS if kind != 'hessian_without_gradient' else ['get_value_and_derivatives', 'create_function']))
     case['bad_name'] = draw(st.sampled_from(['NOT_A_COLUMN', 'missing col', 'xi_draw', 'omega_rv', 'Zz9']))
+    case['formulas'] = draw(st.sampled_from(['single', 'dict_first', 'dict_last']))
     return case
 
 
@@ -136,6 +139,18 @@ def faulty_root(case):
     if kind == 'rv_outside_integrate':
         return set_at(root, path, ['RV', name])
     return root
+
+
+def _formulas(e, mode, database):
+    """The formula alone, or in a dictionary with other (valid) formulas before or after it."""
+    from biogeme.expressions import Numeric, Variable
+
+    if mode in (None, 'single'):
+        return e
+    other = Numeric(1.0) + Variable(database.data.columns[0]) * 0.0
+    if mode == 'dict_first':
+        return {'log_like': e, 'weight': Numeric(1.0), 'zz_other': other}
+    return {'aa_other': other, 'weight': Numeric(1.0), 'log_like': e}
 
 
 def _run_entry(case, root, entry, fault):
@@ -156,7 +171,7 @@ def _run_entry(case, root, entry, fault):
         params = Parameters()
         params.set_value(name='number_of_draws', value=4)
         params.set_value(name='number_of_threads', value=1)
-        the = bio.BIOGEME(database, e, parameters=params)
+        the = bio.BIOGEME(database, _formulas(e, case.get('formulas'), database), parameters=params)
         the.save_iterations = False
         names = list(the.free_beta_names)
         x = [(case['betas'] or {}).get(n, the.id_manager.free_betas.expressions[n].initValue) for n in names]
@@ -230,7 +245,8 @@ def strat_structural(draw, tier):
     case = dict(kind=kind, table=table, alts=alts, utils=draw(mc.utilities(info, alts, ['B_TIME', 'b_cost', 'ASC_1', 'asc_2'])),
                 av=draw(mc.availabilities(info, alts)), choice_col=info['choice'], nests=None, mu=None, log_gi=None,
                 entry=draw(st.sampled_from(['biogeme', 'get_value_c'])), row=draw(st.integers(0, 3)),
-                column=draw(st.integers(0, 20)), np_seed=0, extra=draw(st.integers(41, 60)))
+                column=draw(st.integers(0, 20)), np_seed=0, extra=draw(st.integers(41, 60)),
+                formulas=draw(st.sampled_from(['single', 'dict_first', 'dict_last'])))
     if kind in ('overlapping_nests', 'nest_outside_choice_set'):
         case['nests'] = draw(mc.nested_structure(alts))
         case['model'] = draw(st.sampled_from(['nested', 'lognested', 'nested_mev_mu', 'get_mev_for_nested',
@@ -303,7 +319,7 @@ def _run_structural(case):
         the = bio.BIOGEME(database, expr, parameters=Parameters())
         return ('value', float(the.calculate_likelihood([0.0] * len(the.free_beta_names), scaled=False)))
     if case['entry'] == 'biogeme':
-        the = bio.BIOGEME(database, expr, parameters=Parameters())
+        the = bio.BIOGEME(database, _formulas(expr, case.get('formulas'), database), parameters=Parameters())
         return ('value', float(the.calculate_likelihood([0.0] * len(the.free_beta_names), scaled=False)))
     return ('value', np.asarray(expr.get_value_c(database=database, prepare_ids=True), dtype=float).tolist())
 
@@ -316,12 +332,25 @@ def judge_structural(case0) -> Outcome:
     out.classes += [f'fault={kind}', f'entry={case["entry"]}']
     alts = case['alts']
     if kind == 'overlapping_nests':
+        # the same alternative in two nests: any pair of positions, adjacent or not
         nests = case['nests']
-        src = nests[0][1][0]
-        if len(nests) >= 2:
-            nests[1][1].append(src)  # the same alternative in two nests
+        mode = case['column'] % 4
+        if mode == 0 or len(nests) < 2:
+            src = nests[0][1][0]
+            if len(nests) >= 2:
+                nests[1][1].append(src)
+            else:
+                nests.append([['Lit', 1.5], [src]])
+        elif mode == 1:
+            nests.append([['Lit', 1.5], [nests[0][1][case['row'] % len(nests[0][1])]]])  # first and (new) last nest
+        elif mode == 2:
+            nests[0][1].append(nests[-1][1][0])  # last nest's member also in the first
         else:
-            nests.append([['Lit', 1.5], [src]])
+            i, j = sorted([case['row'] % len(nests), case['extra'] % len(nests)])
+            if i == j:
+                j = (i + 1) % len(nests)
+            nests[j][1].append(nests[i][1][0])
+        out.classes.append(f'overlap_mode={mode}:nests={len(nests)}')
     elif kind == 'nest_outside_choice_set':
         case['nests'][case['row'] % len(case['nests'])][1].append(case['extra'])
     elif kind == 'cnl_nest_outside_choice_set':
@@ -529,6 +558,12 @@ SUBCHECKS = [
              dict(quick=500, thorough=15000),
              'choice value without utility, utility/availability key mismatch, overlapping nests, nest member outside the choice '
              'set (nested and cross-nested), non-numeric column, NaN cell, empty table, variable outside the trajectory on panel data'),
+    SubCheck('one_name_two_kinds', c03.strat_duplicates, c03.judge_duplicates,
+             lambda c: f"{c['dup_kind']} named like parameter {c['victim']!r} via {c['entry']}",
+             dict(quick=300, thorough=8000),
+             'a parameter name reused for a column, a draw variable, an integration variable, or for a free and a fixed parameter, '
+             'through BIOGEME(...), get_value_c and get_value_and_derivatives: must be refused with BiogemeError naming the name '
+             '(the generator and judge are those of C03 duplicates)'),
     SubCheck('missing_data', strat_missing, judge_missing,
              lambda c: f"code {c['code']} plant={c['plant']} via {c['entry']} in {refsem.render(c['roots'][0])[:250]}",
              dict(quick=1000, thorough=40000),
